@@ -171,7 +171,7 @@ func execStop(input string) Result {
 }
 
 var stopMoments = []string{"", "lq.inserted", "pre.in", "pre.done", "arch.in", "arch.fetch", "arch.written", "arch.done", "post.in", "post.done",
-	"fin.in", "fin.feedback", "fin.finished", "fin.notified", "lq.deleted", "paused", "paused", "paused"}
+	"fin.in", "fin.feedback", "fin.finished", "fin.notified", "lq.deleted", "paused", "paused", "paused", "diskpaused", "stalled"}
 
 func genStop(r *Rng, i int, tier string) string {
 	w := []int{1, 2, 2, 3, 4}[r.Intn(5)]
@@ -214,6 +214,20 @@ func genStop(r *Rng, i int, tier string) string {
 				}
 			}
 		}
+	case "diskpaused":
+		// the job volume fills up while the crawl runs: the REAL disk watcher pauses the pipeline at its next 5 s tick,
+		// the disk is still full when the stop comes (the watcher must return all the same)
+		s += fmt.Sprintf(" disklow=%d stop=diskpaused:%d timeout=40000", []int{0, 300, 1500}[r.Intn(3)], []int{0, 50, 400}[r.Intn(3)])
+		if !strings.Contains(s, "maxhops=1") {
+			s += " maxhops=1"
+		}
+	case "stalled":
+		// a server that accepts the request and never answers: only --http-timeout ends the fetch, with the direct and
+		// with the proxied client alike; the stop comes while such a fetch is in progress
+		if !strings.Contains(s, "proxy=1") && r.Chance(60) {
+			s += " proxy=1"
+		}
+		s += fmt.Sprintf(" mode=stall httpto=%d stop=arch.fetch:%d", 2+r.Intn(2), 1+r.Intn(5))
 	default:
 		s += fmt.Sprintf(" stop=%s:%d", m, 1+r.Intn(4))
 	}
